@@ -10,8 +10,10 @@
 
 mod alloc_track;
 mod common;
+mod http;
 mod pure;
 mod sim;
+mod web;
 
 use std::time::Duration;
 
@@ -40,6 +42,8 @@ fn checks() -> Vec<Check> {
         sim::c07::check(),
         sim::c10::check(),
         sim::c20::check(),
+        web::c15::check(),
+        web::c17::check(),
     ]
 }
 
